@@ -26,7 +26,7 @@ Section Radix.
 
   (* big.Int.Bytes / the digit loop of Encode: minimal big-endian digits, [] for 0 *)
   Definition to_digits_be (x : N) : option (list N) :=
-    option_map (@rev N) (to_digits_le (N.size_nat x) x).
+    option_map (@rev N) (to_digits_le (N.to_nat (N.size x)) x).
 
   (* big.Int.SetBytes / the accumulation loop of Decode *)
   Definition of_digits_be (l : list N) : N := fold_left (fun acc d => acc * B + d) l 0.
